@@ -1492,6 +1492,178 @@ def _spread_constant_kwargs(fn: ast.FunctionDef) -> int:
     return done
 
 
+_ABC_NAMES = {'Iterable', 'Iterator', 'Sequence', 'MutableSequence', 'Mapping', 'MutableMapping', 'Collection', 'Container', 'Sized',
+              'Hashable', 'Number', 'Real', 'Integral', 'Complex', 'Callable', 'Generator', 'Set', 'MutableSet', 'object'}
+
+
+def _desugar_singledispatch(tree: ast.Module, known: Set[str]) -> int:
+    """`@functools.singledispatch def f(x, ..): D` with `@f.register(T) def _(x, ..): B_T` (also the annotation form and stacked
+    registrations), f not in the pinned tree: one function with an isinstance chain on the first argument - concrete classes first,
+    abstract base classes after them (singledispatch picks the most specific registered class), `type(None)` as `x is None`, the
+    undecorated body as the final else.  Parameters of the implementations are renamed by position to those of f."""
+    done = 0
+
+    def deco_name(d):
+        return ast.unparse(d.func if isinstance(d, ast.Call) else d)
+    generic = {n.name: n for n in tree.body if isinstance(n, ast.FunctionDef) and n.name not in known
+               and any(deco_name(d) in ('singledispatch', 'functools.singledispatch') for d in n.decorator_list)}
+    for name, g in generic.items():
+        if g.args.vararg or g.args.kwarg or not g.args.args:
+            continue
+        gparams = [a.arg for a in g.args.args]
+        impls = []          # (type expressions, FunctionDef)
+        ok = True
+        for n in tree.body:
+            if not isinstance(n, ast.FunctionDef) or n is g:
+                continue
+            regs = [d for d in n.decorator_list if deco_name(d) in (f'{name}.register',)]
+            if not regs:
+                continue
+            types = []
+            for d in regs:
+                if isinstance(d, ast.Call) and d.args:
+                    types.append(d.args[0])
+                elif n.args.args and n.args.args[0].annotation is not None:
+                    types.append(n.args.args[0].annotation)
+                else:
+                    ok = False
+            if len(n.decorator_list) != len(regs) or n.args.vararg or n.args.kwarg or len(n.args.args) != len(gparams):
+                ok = False
+            impls.append((types, n))
+        if not ok or not impls:
+            continue
+
+        def is_abc(t):
+            return ast.unparse(t).split('.')[-1] in _ABC_NAMES
+        arms = []
+        for types, n in impls:
+            body = copy.deepcopy(n.body)
+            ren = {a.arg: gp for a, gp in zip(n.args.args, gparams) if a.arg != gp}
+            if ren:
+                # a local of the implementation must not collide with a parameter name of f
+                if set(ren.values()) & (_locals_of(n) - {a.arg for a in n.args.args}):
+                    ok = False
+                    break
+                body = [_Rename(ren).visit(st) for st in body]
+            for t in types:
+                arms.append((t, body))
+        if not ok:
+            continue
+        arms.sort(key=lambda a: is_abc(a[0]))            # stable: concrete classes first
+        x = gparams[0]
+        chain_head = None
+        tail = None
+        for t, body in arms:
+            ts = ast.unparse(t)
+            if ts in ('type(None)', 'NoneType', 'types.NoneType'):
+                test = ast.Compare(left=ast.Name(id=x, ctx=ast.Load()), ops=[ast.Is()], comparators=[ast.Constant(value=None)])
+            else:
+                test = ast.Call(func=ast.Name(id='isinstance', ctx=ast.Load()), args=[ast.Name(id=x, ctx=ast.Load()), copy.deepcopy(t)], keywords=[])
+            node = ast.If(test=test, body=copy.deepcopy(body), orelse=[])
+            if chain_head is None:
+                chain_head = node
+            else:
+                tail.orelse = [node]
+            tail = node
+        default = list(g.body)
+        doc = []
+        if default and isinstance(default[0], ast.Expr) and isinstance(default[0].value, ast.Constant) and isinstance(default[0].value.value, str):
+            doc, default = default[:1], default[1:]
+        tail.orelse = default or [ast.Pass()]
+        g.body = doc + [chain_head]
+        g.decorator_list = [d for d in g.decorator_list if deco_name(d) not in ('singledispatch', 'functools.singledispatch')]
+        for _, n in impls:
+            if n in tree.body:
+                tree.body.remove(n)
+        ast.copy_location(chain_head, g)
+        ast.fix_missing_locations(g)
+        done += 1
+    return done
+
+
+def _inline_decorators(tree: ast.Module, known: Set[str]) -> int:
+    """A NEW module-level decorator of the usual shape
+
+        def deco(func):
+            @functools.wraps(func)
+            def wrapper(<params>):  W ... func(<args>) ...
+            return wrapper
+
+    applied (bare, `@deco`) to a function or method g: g becomes the wrapper (its parameter list and body, `func` -> `__orig_g`) and the
+    undecorated g is kept as the module-level helper `__orig_g`, which the ordinary inliner then expands.  A wrapper that takes
+    (*args, **kwargs) and only forwards them is given g's own parameter list."""
+    decos = {}
+    for n in tree.body:
+        if not (isinstance(n, ast.FunctionDef) and n.name not in known and len(n.args.args) == 1 and not n.decorator_list):
+            continue
+        body = [st for st in n.body if not (isinstance(st, ast.Expr) and isinstance(st.value, ast.Constant))]
+        if len(body) == 2 and isinstance(body[0], ast.FunctionDef) and isinstance(body[1], ast.Return) \
+                and isinstance(body[1].value, ast.Name) and body[1].value.id == body[0].name:
+            w = body[0]
+            if all(ast.unparse(d.func if isinstance(d, ast.Call) else d) in ('wraps', 'functools.wraps') for d in w.decorator_list):
+                decos[n.name] = (n.args.args[0].arg, w)
+    if not decos:
+        return 0
+    done = 0
+    new_top = []
+
+    def apply(g: ast.FunctionDef, owner: Optional[str]):
+        nonlocal done
+        if len(g.decorator_list) != 1 or not isinstance(g.decorator_list[0], ast.Name) or g.decorator_list[0].id not in decos:
+            return
+        fparam, w = decos[g.decorator_list[0].id]
+        w = copy.deepcopy(w)
+        w.decorator_list = []              # functools.wraps(func): metadata only
+        orig_name = f'__orig_{owner + "_" if owner else ""}{g.name}'
+        calls = [c for c in ast.walk(w) if isinstance(c, ast.Call) and isinstance(c.func, ast.Name) and c.func.id == fparam]
+        other = [x for x in ast.walk(w) if isinstance(x, ast.Name) and x.id == fparam and not any(x is c.func for c in calls)]
+        if not calls or other:
+            return
+        if w.args.vararg or w.args.kwarg:
+            # pure forwarding of (*args, **kwargs): use g's own parameters
+            va, ka = (w.args.vararg.arg if w.args.vararg else None), (w.args.kwarg.arg if w.args.kwarg else None)
+            if w.args.args or w.args.kwonlyargs:
+                return
+            for c in calls:
+                fw_ok = all(isinstance(a, ast.Starred) and isinstance(a.value, ast.Name) and a.value.id == va for a in c.args) and \
+                    all(k.arg is None and isinstance(k.value, ast.Name) and k.value.id == ka for k in c.keywords)
+                if not fw_ok:
+                    return
+            used_elsewhere = [x for x in ast.walk(w) if isinstance(x, ast.Name) and x.id in (va, ka)
+                              and not any(any(x is y for y in ast.walk(c)) for c in calls)]
+            if used_elsewhere or g.args.vararg or g.args.kwarg:
+                return
+            w.args = copy.deepcopy(g.args)
+            for c in calls:
+                c.args = [ast.Name(id=a.arg, ctx=ast.Load()) for a in g.args.posonlyargs + g.args.args]
+                c.keywords = [ast.keyword(arg=a.arg, value=ast.Name(id=a.arg, ctx=ast.Load())) for a in g.args.kwonlyargs]
+        for c in calls:
+            c.func = ast.Name(id=orig_name, ctx=ast.Load())
+        orig = copy.deepcopy(g)
+        orig.name = orig_name
+        orig.decorator_list = []
+        new_top.append(orig)
+        doc = [st for st in g.body[:1] if isinstance(st, ast.Expr) and isinstance(st.value, ast.Constant) and isinstance(st.value.value, str)]
+        g.args = w.args
+        g.body = doc + [st for st in w.body if not (isinstance(st, ast.Expr) and isinstance(st.value, ast.Constant) and isinstance(st.value.value, str))]
+        g.decorator_list = []
+        ast.fix_missing_locations(g)
+        done += 1
+    for n in list(tree.body):
+        if isinstance(n, ast.FunctionDef) and n.name not in decos:
+            apply(n, None)
+        elif isinstance(n, ast.ClassDef):
+            for m in n.body:
+                if isinstance(m, ast.FunctionDef):
+                    apply(m, n.name)
+    if new_top:
+        pos = next((i for i, x in enumerate(tree.body) if isinstance(x, (ast.FunctionDef, ast.ClassDef))), len(tree.body))
+        for k, o in enumerate(new_top):
+            tree.body.insert(pos + k, o)
+        ast.fix_missing_locations(tree)
+    return done
+
+
 def _desugar_collectors(fn: ast.FunctionDef, generators: Set[str]) -> int:
     """`t = dict(chain(P1, P2, ..))`, `t = dict(P)`, `t = list(chain(..))`, `t = list(P)` where some piece P is a call of a new
     generator: the collection is built by statements, `t = {}` / `t = []` followed, per piece, by
@@ -1638,9 +1810,12 @@ def inline_new_helpers(tree: ast.Module, module: str) -> int:
             _AttrFold().visit(n)
     ast.fix_missing_locations(tree)
     frozen = frozen_functions()
+    # generic functions become isinstance chains in every module (a new module's helpers are inlined across modules later)
+    _desugar_singledispatch(tree, set(frozen.get(module, [])))
     if module not in frozen:
         return 0                      # a new module: nothing is anchored in it
     known = set(frozen[module])
+    _inline_decorators(tree, known)
     helpers = {}
     for n in tree.body:
         if isinstance(n, ast.FunctionDef) and n.name not in known:
